@@ -357,7 +357,7 @@ impl Float {
         } else if n.is_inf() || n.is_nan() {
             return Self::nan(orig_sem, sign);
         } else if n.is_zero() {
-            return Self::one(orig_sem, sign);
+            return Self::one(orig_sem, false);
         } else if self.is_zero() {
             return if n.is_negative() {
                 Self::inf(orig_sem, sign)
